@@ -99,6 +99,86 @@ MUTANTS = [
 ]
 
 
+# Property-preserving edits ("soundness drills", DESIGN §8): no check may raise an alarm.
+BENIGN = [
+    ("ok-export-single-tabs", "trees/treeoutput.py",
+     "    if length < 8:\n        return \"\\t\\t\\t\"\n    elif length < 16:\n        return \"\\t\\t\"\n    else:\n        return \"\\t\"",
+     "    return \"\\t\""),
+    ("ok-tigerxml-attribute-order-and-indent", "trees/treeoutput.py",
+     "        stream.write(u\"%s=%s \" % ('word', terminal.data['word']))\n        stream.write(u\"%s=%s \" % ('lemma', terminal.data['lemma']))\n        stream.write(u\"%s=%s \" % ('pos', terminal.data['label']))",
+     "        stream.write(u\"%s=%s \" % ('pos', terminal.data['label']))\n        stream.write(u\"%s=%s  \" % ('word', terminal.data['word']))\n        stream.write(u\"%s=%s \" % ('lemma', terminal.data['lemma']))"),
+    ("ok-rcg-writer-sorted-rules", "trees/grammaroutput.py",
+     "    with io.open(\"%s.rcg\" % dest, 'w', encoding=dest_enc) as dest_stream:\n        for func in gram:",
+     "    with io.open(\"%s.rcg\" % dest, 'w', encoding=dest_enc) as dest_stream:\n        for func in sorted(gram):"),
+    ("ok-debug-prints-on-stderr", "trees/treeinput.py",
+     "    in_sentence = False\n    sentence = []\n    last_id = None",
+     "    in_sentence = False\n    sentence = []\n    last_id = None\n    print('export reader: start', in_file, file=sys.stderr)"),
+    ("ok-gunzip-temp-prefix", "trees/misc.py",
+     "tempfile.NamedTemporaryFile(mode='w+b', delete=False)",
+     "tempfile.NamedTemporaryFile(mode='w+b', delete=False, prefix='treetools-', suffix='.unzipped')"),
+    ("ok-directory-listing-sorted-scandir", "trees/transform.py",
+     "            for srcfile in os.listdir(args.src):\n                srcfile = os.path.join(args.src, srcfile)",
+     "            for srcfile in sorted(e.name for e in os.scandir(args.src)):\n                srcfile = os.path.join(args.src, srcfile)"),
+    ("ok-lopar-start-sorted", "trees/grammaroutput.py",
+     "        for symbol in startsymbols:", "        for symbol in sorted(startsymbols):"),
+    ("ok-node-ids-from-1000", "trees/trees.py",
+     "    newid = itertools.count()", "    newid = itertools.count(1000)"),
+    ("ok-pathlib-open-for-destination", "trees/transform.py",
+     "            with io.open(dest, 'w', encoding=args.dest_enc) as dest_stream:",
+     "            import pathlib\n            with pathlib.Path(dest).open('w', encoding=args.dest_enc) as dest_stream:"),
+    ("ok-gapdegree-report-extra-line", "trees/treeanalysis.py",
+     "        print(\"*** Gap degree summary ***\")",
+     "        print(\"*** Gap degree summary ***\")\n        print(\"(computed over all non-terminals)\")"),
+    ("ok-lexicon-as-defaultdict", "trees/grammar.py",
+     "            if not word in lexicon:\n                lexicon[word] = Counter([])\n            lexicon[word].update([label])",
+     "            lexicon.setdefault(word, Counter())[label] += 1"),
+]
+
+
+def run_benign(args, seed, repo, jobs, count=500):
+    """No registered check may print VIOLATION (or fail) on a property-preserving edit."""
+    here = os.path.dirname(os.path.dirname(os.path.abspath(__file__)))
+    check = os.path.join(here, 'check')
+    from . import props
+    rc = 0
+    for (name, rel, old, new) in BENIGN:
+        if args and name not in args:
+            continue
+        base, dst = scratch_copy(repo)
+        try:
+            if not apply(dst, (name, None, rel, old, new)):
+                print('selftest soundness %-40s STALE (pattern not found)' % name)
+                rc = 2
+                continue
+            t = subprocess.run([sys.executable, '-m', 'pytest', '-q', '-x', '-p',
+                                'no:cacheprovider'], cwd=dst, capture_output=True, text=True,
+                               env=dict(os.environ, PYTHONDONTWRITEBYTECODE='1'))
+            alarms = []
+            for p in props.CLAIMED:
+                r = subprocess.run([sys.executable, check, p, '--repo', dst, '--no-evidence',
+                                    '--jobs', str(jobs), '--count', str(count)],
+                                   capture_output=True, text=True,
+                                   env=dict(os.environ, VERIF_SEED=str(seed)))
+                if r.returncode != 0:
+                    sig = [l.strip() for l in r.stdout.splitlines()
+                           if l.strip().startswith('signature:') or 'HARNESS' in l]
+                    alarms.append('%s(exit %d %s)' % (p, r.returncode, sig[:1]))
+                    for l in r.stdout.splitlines():
+                        if l.startswith('VIOLATION'):
+                            try:
+                                os.remove(l.split('replay=')[1].strip())
+                            except OSError:
+                                pass
+            print('selftest soundness %-40s %s %s'
+                  % (name, 'quiet' if not alarms else 'FALSE-ALARM ' + ' '.join(alarms),
+                     'tests-green' if t.returncode == 0 else 'tests-fail'))
+            if alarms:
+                rc = 2
+        finally:
+            shutil.rmtree(base, ignore_errors=True)
+    return rc
+
+
 def scratch_copy(repo):
     base = tempfile.mkdtemp(prefix='tsim-mut-')
     dst = os.path.join(base, 'repo')
